@@ -1,1 +1,181 @@
-pub fn placeholder() {}
+//! minigo: an independent judge (lexer, parser, type checker, interpreter) for the closed
+//! subset of Go that the goml printer can emit.  Anything outside the modelled subset
+//! yields `Unsupported` (fail closed).
+
+mod ast;
+mod check;
+mod codegen;
+mod consts;
+mod fmt;
+mod interp;
+mod ir;
+mod lex;
+mod parse;
+mod sched;
+mod types;
+
+use std::panic::{catch_unwind, AssertUnwindSafe};
+
+#[derive(Debug, Clone, PartialEq, Eq)]
+pub enum ErrKind {
+    Lex,
+    Parse,
+    Type,
+    Unsupported,
+}
+
+#[derive(Debug, Clone)]
+pub struct GoError {
+    pub kind: ErrKind,
+    pub line: u32,
+    pub col: u32,
+    /// stable short rule id, e.g. "syntax", "undeclared", "redeclared", "unused-var", ...
+    pub rule: String,
+    pub msg: String,
+}
+
+impl GoError {
+    pub(crate) fn new(kind: ErrKind, pos: lex::Pos, rule: &str, msg: String) -> GoError {
+        GoError { kind, line: pos.line, col: pos.col, rule: rule.to_string(), msg }
+    }
+    pub(crate) fn unsupported(pos: lex::Pos, what: &str) -> GoError {
+        GoError {
+            kind: ErrKind::Unsupported,
+            line: pos.line,
+            col: pos.col,
+            rule: format!("unsupported:{}", what),
+            msg: format!("unsupported: {}", what),
+        }
+    }
+}
+
+impl std::fmt::Display for GoError {
+    fn fmt(&self, f: &mut std::fmt::Formatter<'_>) -> std::fmt::Result {
+        write!(f, "{}:{}: [{:?}/{}] {}", self.line, self.col, self.kind, self.rule, self.msg)
+    }
+}
+
+/// Opaque: checked + compiled program.
+pub struct Program {
+    pub(crate) code: codegen::Code,
+    pub(crate) idents: Vec<(String, &'static str, u32)>,
+}
+
+impl Program {
+    pub fn declared_idents(&self) -> Vec<(String, &'static str, u32)> {
+        self.idents.clone()
+    }
+}
+
+fn compile_inner(text: &str) -> Result<Program, Vec<GoError>> {
+    let toks = lex::lex(text).map_err(|e| vec![e])?;
+    let file = parse::parse(&toks).map_err(|e| vec![e])?;
+    let checked = check::check(&file)?;
+    let idents = checked.idents.clone();
+    let code = codegen::generate(checked).map_err(|e| vec![e])?;
+    Ok(Program { code, idents })
+}
+
+fn internal_err(what: &str) -> GoError {
+    GoError {
+        kind: ErrKind::Unsupported,
+        line: 0,
+        col: 0,
+        rule: "unsupported:internal".to_string(),
+        msg: format!("internal: {}", what),
+    }
+}
+
+fn panic_text(p: Box<dyn std::any::Any + Send>) -> String {
+    if let Some(s) = p.downcast_ref::<&str>() {
+        s.to_string()
+    } else if let Some(s) = p.downcast_ref::<String>() {
+        s.clone()
+    } else {
+        "panic".to_string()
+    }
+}
+
+/// lex + parse + type-check.
+pub fn compile(text: &str) -> Result<Program, Vec<GoError>> {
+    // Run on a dedicated thread with a large stack so that deeply nested (but capped)
+    // input can never overflow the caller's stack.
+    let res = std::thread::scope(|s| {
+        let h = std::thread::Builder::new()
+            .stack_size(512 << 20)
+            .spawn_scoped(s, || catch_unwind(AssertUnwindSafe(|| compile_inner(text))));
+        match h {
+            Ok(h) => match h.join() {
+                Ok(Ok(r)) => r,
+                Ok(Err(p)) => Err(vec![internal_err(&panic_text(p))]),
+                Err(p) => Err(vec![internal_err(&panic_text(p))]),
+            },
+            Err(_) => match catch_unwind(AssertUnwindSafe(|| compile_inner(text))) {
+                Ok(r) => r,
+                Err(p) => Err(vec![internal_err(&panic_text(p))]),
+            },
+        }
+    });
+    match res {
+        Ok(p) => Ok(p),
+        Err(mut errs) => {
+            if let Some(u) = errs.iter().find(|e| e.kind == ErrKind::Unsupported) {
+                return Err(vec![u.clone()]);
+            }
+            errs.sort_by_key(|e| (e.line, e.col));
+            Err(errs)
+        }
+    }
+}
+
+#[derive(Debug, Clone)]
+pub struct RunOpts {
+    pub max_steps: u64,
+    pub sched: Vec<u8>,
+    pub max_output: usize,
+}
+
+#[derive(Debug, Clone, PartialEq, Eq)]
+pub enum PanicKind {
+    DivideByZero,
+    IndexOutOfRange,
+    NilDeref,
+    TypeAssertion,
+    Explicit,
+    Uncomparable,
+    Other,
+}
+
+#[derive(Debug, Clone, PartialEq, Eq)]
+pub enum End {
+    Exit0,
+    Panic(PanicKind, String),
+    StepLimit,
+    OutputLimit,
+    Unsupported(String),
+}
+
+#[derive(Debug, Clone)]
+pub struct RunResult {
+    pub stdout: Vec<u8>,
+    pub stderr: Vec<u8>,
+    pub end: End,
+    pub steps: u64,
+    /// for every choice point that consumed a schedule byte: number of live activations there
+    pub choice_points: Vec<u8>,
+    pub spawned: u32,
+}
+
+pub fn run(p: &Program, opts: &RunOpts) -> RunResult {
+    match catch_unwind(AssertUnwindSafe(|| interp::run(&p.code, opts))) {
+        Ok(r) => r,
+        Err(e) => RunResult {
+            stdout: Vec::new(),
+            stderr: Vec::new(),
+            end: End::Unsupported(format!("internal: {}", panic_text(e))),
+            steps: 0,
+            choice_points: Vec::new(),
+            spawned: 0,
+        },
+    }
+}
